@@ -754,6 +754,20 @@ case('C19', "C19-seed9", "mutant", 'seeded (round 5): Robustness feature in the 
 case('C20', "C20-seed9", "mutant", 'seeded (round 5): File-permission fix in scheme/ocidir: os.CreateTemp always creates files with mode 0600, so every blob, manifest, index.json ',
      patch="seeded/C20-9/patch.diff", expect=[('C20.R1', 'tmpCreate', "os.OpenFile path")])
 
+# ---------------------------------------------------------------- D20 and C09.R13 (session of 2026-09-29)
+case("C09", "C09-D20", "mutant", "historical defect D20 re-introduced: ImageExport closes its tar and gzip writers by deferred calls whose errors are dropped",
+     patch="selftest/regress/D20.diff", expect=[("C09.R13", "ImageExport", "archive/tar.NewWriter writer"), ("C09.R13", "ImageExport", "compress/gzip.NewWriter writer")])
+case("C09", "C09-m-gzdropped", "mutant", "the deferred literal of the gzip writer drops the Close result",
+     patch="selftest/variants/C09-m-gzdropped.diff", expect=[("C09.R13", "ImageExport", "compress/gzip.NewWriter writer")])
+case("C09", "C09-m-explicit-gzdropped", "mutant", "explicit closes at the end of the export, the gzip one unchecked",
+     patch="selftest/variants/C09-m-explicit-gzdropped.diff", expect=[("C09.R13", "ImageExport", "compress/gzip.NewWriter writer")])
+for _v, _d in [("C09-h-explicitclose", "writers closed explicitly and checked before the final return, deferred closes kept as a safety net"),
+               ("C09-h-joinclose", "deferred literals join the Close error onto the result"),
+               ("C09-h-helperclose", "tar writer finished by a helper that returns the Close error; gzip error wrapped")]:
+    case("C09", _v, "benign", _d, patch="selftest/variants/%s.diff" % _v)
+    case("C01", _v.replace("C09", "C01x"), "benign", _d + " (C01.R11 looks at deferred stores to error results)", patch="selftest/variants/%s.diff" % _v)
+
+
 def main():
     bad = 0
     for pid, cases in CASES.items():
